@@ -156,6 +156,9 @@ def run(cx: Cx):
         if p.end == 'raise' or _passed_entry_check(cx, p) is False:
             continue
         if not any(e.kind == 'loop' and e.node.lineno in sched_lines for e in p.events):
+            from .common import known_empty_on
+            if known_empty_on(p.cond, queue_term(fn.params[0])):
+                continue        # nothing is queued: the walk would visit nobody
             skipped = p
             break
     if skipped is not None:
